@@ -329,7 +329,9 @@ func decodeEdit(data []byte) (Edit, error) {
 		// | TruncatedIndex (v)| TruncatedTerm (v)| SegmentIndex (v)| TruncatedOffset (v)|
 		// +-----------------+-----------------+-----------------+-----------------+
 		// (v) denotes Uvarint
-		if pos <= len(data) {
+		// A raft edit logged without a pointer has no payload and decodes to a
+		// nil pointer (a no-op in apply), exactly like the value-log edits above.
+		if pos < len(data) {
 			groupID, n := binary.Uvarint(data[pos:])
 			pos += n
 			seg, n := binary.Uvarint(data[pos:])
@@ -404,7 +406,8 @@ func decodeEdit(data []byte) (Edit, error) {
 		// | Epoch.ConfVersion (v) | State (1B) | PeersCount (v) | Peer1.StoreID (v) | Peer1.PeerID (v) | ... |
 		// +-----------------------+------------+----------------+-------------------+------------------+
 		// (v) denotes Uvarint, (lv) denotes Length-prefixed Bytes (Uvarint length + bytes)
-		if pos <= len(data) {
+		// Same for a region edit logged without a RegionEdit.
+		if pos < len(data) {
 			regionID, n := binary.Uvarint(data[pos:])
 			pos += n
 			if pos > len(data) {
